@@ -21,6 +21,8 @@ func init() {
 	for _, lf := range []int64{0, 1} {
 		quick = append(quick, &Job{Pkg: "", Func: "ZZ_C13_Relisten", Args: []int64{lf}, Bounds: "a listener closed before its accept loop started, the same address listened on and started again, then the first listener's Async (either order), Shutdown concurrently; ALL interleavings"})
 	}
+	add(&quick, 0, 65, 0) // user context cancelled just before Shutdown (listener)
+	add(&quick, 0, 68, 0) // ... with a client connection
 	add(&quick, 0, 36, 0) // two connects with the same channel id: the holder refuses the second during activation
 	for _, c := range [][]int64{{0, 0, 0}, {16, 8, 0}, {0, 8, 0}, {16, 8, 2}, {16, 0, 0}, {0, 8, 2}} {
 		quick = append(quick, &Job{Pkg: "", Func: "ZZ_C13_BufferedClose", Args: c, Bounds: "a channel over the repository's buffered transport wrappers (read / write buffer sizes 0 or >0) on a connection whose writes fail: after Close the connection itself is closed exactly once"})
